@@ -4,6 +4,7 @@
 From Coq Require Import List ZArith Bool.
 Import ListNotations.
 Require Import Gram.Model.Term Gram.Model.DeBruijn Gram.Model.Eval Gram.Spec.Cbv Gram.Proofs.CbvProofs Gram.Spec.EvalEnv Gram.Proofs.EvalEnvProofs.
+Require Gram.Proofs.EvalEnvGroups.
 
 Theorem C02_step_iff_cbv : forall t t', step t = Some t' <-> cbv t t'.
 Proof. exact step_iff_cbv. Qed.
@@ -124,3 +125,55 @@ Theorem C02_factorial_agree : okt 0 fact_prog /\ run_env 40 fact_prog = ROk (VLi
 Proof. exact (conj fact_prog_okt (conj fact_prog_run_env fact_prog_agree)). Qed.
 Check C02_factorial_agree : okt 0 fact_prog /\ run_env 40 fact_prog = ROk (VLit 120) /\ exists f, evaluate f fact_prog = Some (TLit 120).
 Print Assumptions C02_factorial_agree.
+
+(* ... and on EVERY closed hole-free program (Proofs/EvalEnvGroups.v): groups of any number of definitions, computed
+   definitions evaluated in place, mutual recursion, forward references (the recorded finding D7's witness
+   `x = y + 1; y = 2; x` is stuck for the same reason on both sides). The family of successive unfoldings of a cell
+   of the cyclic store is captured by mutually inductive relations `gref` / `gvrel`, no step-indexing needed. *)
+Theorem C02_interpreters_agree_on_all_programs : forall t, EvalEnvGroups.okt' t ->
+  ((exists f, run_env f t <> RFuel) <-> (exists f t', evaluate f t = Some t')) /\
+  (forall f1 f2 t', evaluate f1 t = Some t' ->
+     match run_env f2 t with
+     | ROk v => (exists s', EvalEnvGroups.gvrel s' [] v t') /\ is_value t' = true /\ obs_of_term t' = Some (obs_of_value v)
+     | RStuck k => is_value t' = false /\ stuck_reason t' = Some k
+     | RFuel => True
+     end).
+Proof. exact EvalEnvGroups.interpreters_agree_G3. Qed.
+Check C02_interpreters_agree_on_all_programs : forall t, EvalEnvGroups.okt' t ->
+  ((exists f, run_env f t <> RFuel) <-> (exists f t', evaluate f t = Some t')) /\
+  (forall f1 f2 t', evaluate f1 t = Some t' ->
+     match run_env f2 t with
+     | ROk v => (exists s', EvalEnvGroups.gvrel s' [] v t') /\ is_value t' = true /\ obs_of_term t' = Some (obs_of_value v)
+     | RStuck k => is_value t' = false /\ stuck_reason t' = Some k
+     | RFuel => True
+     end).
+Print Assumptions C02_interpreters_agree_on_all_programs.
+
+Theorem C02_same_literal_on_all_programs : forall t z, EvalEnvGroups.okt' t ->
+  ((exists f, run_env f t = ROk (VLit z)) <-> (exists f, evaluate f t = Some (TLit z))).
+Proof. exact EvalEnvGroups.interpreters_agree_G3_lit. Qed.
+Check C02_same_literal_on_all_programs : forall t z, EvalEnvGroups.okt' t ->
+  ((exists f, run_env f t = ROk (VLit z)) <-> (exists f, evaluate f t = Some (TLit z))).
+Print Assumptions C02_same_literal_on_all_programs.
+
+Theorem C02_same_stuck_reason_on_all_programs : forall t k, EvalEnvGroups.okt' t ->
+  ((exists f, run_env f t = RStuck k) <->
+   (exists f t', evaluate f t = Some t' /\ is_value t' = false /\ stuck_reason t' = Some k)).
+Proof. exact EvalEnvGroups.interpreters_agree_G3_stuck. Qed.
+Check C02_same_stuck_reason_on_all_programs : forall t k, EvalEnvGroups.okt' t ->
+  ((exists f, run_env f t = RStuck k) <->
+   (exists f t', evaluate f t = Some t' /\ is_value t' = false /\ stuck_reason t' = Some k)).
+Print Assumptions C02_same_stuck_reason_on_all_programs.
+
+Theorem C02_diverge_together_on_all_programs : forall t, EvalEnvGroups.okt' t ->
+  ((forall f, run_env f t = RFuel) <-> (forall f, evaluate f t = None)).
+Proof. exact EvalEnvGroups.interpreters_diverge_together_G3. Qed.
+Check C02_diverge_together_on_all_programs : forall t, EvalEnvGroups.okt' t ->
+  ((forall f, run_env f t = RFuel) <-> (forall f, evaluate f t = None)).
+Print Assumptions C02_diverge_together_on_all_programs.
+
+Theorem C02_okt'_is_closed_and_hole_free : forall t, EvalEnvGroups.okt' t <-> (bnd 0 t = true /\ hole_free t = true).
+Proof. intros t. reflexivity. Qed.
+Check C02_okt'_is_closed_and_hole_free : forall t, EvalEnvGroups.okt' t <-> (bnd 0 t = true /\ hole_free t = true).
+Print Assumptions C02_okt'_is_closed_and_hole_free.
+
